@@ -78,11 +78,18 @@ def run(chk, replay=None):
     chk.count_actions(hs)
     chk.require_actions(["Put", "AtAssign", "GetOrInsert", "At", "Contains", "Erase", "Clear", "AtIndex", "IterRev", "IterConst"])
     chk.cov["generation_FlatMap"] = info
-    nd = adtcheck._nontrivial_distinct(hs, MUT_MAP)
+    # thorough: the full budget (all histories of length 4) on the <int,int> variant, the quick budget on the other three
+    hs_small = hs
+    if not quick:
+        hs_small, _, _ = adtcheck.gen_histories(chk, SPEC, "OrderedMap", "OrderedMapGen.cfg", 40000, 6, walks=20000, walk_len=40,
+                                                seed=chk.seed + 7, mutators=MUT_MAP, tag="c10-map-small")
     for variant in ["ii", "ss", "si", "is"]:
-        n, wall = adtcheck.replay(chk, exe, hs, "c10-map-" + variant, "FlatMap<%s>" % variant, meta={"variant": variant})
-        chk.log("FlatMap<%s>: %d histories replayed (%d mismatching) in %.1fs" % (variant, len(hs), n, wall))
-        chk.cov["distinct_nontrivial"] += nd
+        hv = hs if variant == "ii" else hs_small
+        n, wall = adtcheck.replay(chk, exe, hv, "c10-map-" + variant, "FlatMap<%s>" % variant, meta={"variant": variant})
+        chk.log("FlatMap<%s>: %d histories replayed (%d mismatching) in %.1fs" % (variant, len(hv), n, wall))
+        chk.cov["distinct_nontrivial"] += adtcheck._nontrivial_distinct(hv, MUT_MAP) if not quick else 0
+    if quick:
+        chk.cov["distinct_nontrivial"] += 4 * adtcheck._nontrivial_distinct(hs, MUT_MAP)
     chk.add_sample({"kind": "history", "object": "FlatMap", "steps": hs[len(hs) // 2]})
 
     exe2 = build.build("drv_param_object")
